@@ -161,15 +161,20 @@ pub(crate) mod proofs {
             assert!(arr_eq(&used_of(&m), &s2.used_list()),                           "create: used list == ascending(live + {id}), u32::MAX padded");
             let (v2, vn2) = vacant_of(&m);
             assert!(vn2 == vn - 1,                                           "create: one vacant id less");
-            let k: usize = kani::any(); kani::assume(k < M && k + 1 < vn as usize);
-            assert!(v2[k] == vseq[k + 1],                                    "create: vacant' = vacant.drop_first()");
+            let k: usize = kani::any();
+            if k < M && k + 1 < vn as usize {
+                assert!(v2[k] == vseq[k + 1],                                    "create: vacant' = vacant.drop_first()");
+            }
             let keep = keep_of(&m);
             assert!(keep[id as usize],                                       "create: the new stream is told to keep running");
-            let j: usize = kani::any(); kani::assume(j < M && j != id as usize);
-            assert!(keep[j] == s.keep[j],                                    "create: other streams' flags untouched");
-            assert!(has_waker(&m, j) == (s.live[j] && s.parked[j]),          "create: other streams' wakers untouched");
-            assert!(locks_free(&m),                                          "create: no lock left held");
+            let j: usize = kani::any();
+            if j < M && j != id as usize {
+                assert!(keep[j] == s.keep[j],                                    "create: other streams' flags untouched");
+                assert!(has_waker(&m, j) == (s.live[j] && s.parked[j]),          "create: other streams' wakers untouched");
+                assert!(locks_free(&m),                                          "create: no lock left held");
+            }
             kani::cover!(s.live_count() + 1 == M as u32, "creating the last possible stream");
+            kani::cover!(true, "end of harness reachable (vacuity guard)");
         }
 
         // @props C10 C07
@@ -186,13 +191,18 @@ pub(crate) mod proofs {
             assert!(arr_eq(&used_of(&m), &s2.used_list()),                           "drop: used list == ascending(live - {id})");
             let (v2, vn2) = vacant_of(&m);
             assert!(vn2 == vn + 1 && v2[vn as usize] == id,                  "drop: vacant' = vacant.push(id) -- the id becomes reusable");
-            let k: usize = kani::any(); kani::assume(k < vn as usize);
-            assert!(v2[k] == vseq[k],                                        "drop: rest of the vacant FIFO unchanged");
-            assert!(!has_waker(&m, id as usize),                             "drop: the stream's waker is forgotten");
-            let j: usize = kani::any(); kani::assume(j < M && j != id as usize);
-            assert!(has_waker(&m, j) == (s.live[j] && s.parked[j]),          "drop: other streams' wakers untouched");
-            assert!(keep_of(&m)[j] == s.keep[j],                             "drop: other streams' flags untouched");
-            assert!(locks_free(&m),                                          "drop: no lock left held");
+            let k: usize = kani::any();
+            if k < vn as usize {
+                assert!(v2[k] == vseq[k],                                        "drop: rest of the vacant FIFO unchanged");
+                assert!(!has_waker(&m, id as usize),                             "drop: the stream's waker is forgotten");
+            }
+            let j: usize = kani::any();
+            if j < M && j != id as usize {
+                assert!(has_waker(&m, j) == (s.live[j] && s.parked[j]),          "drop: other streams' wakers untouched");
+                assert!(keep_of(&m)[j] == s.keep[j],                             "drop: other streams' flags untouched");
+                assert!(locks_free(&m),                                          "drop: no lock left held");
+            }
+            kani::cover!(true, "end of harness reachable (vacuity guard)");
         }
 
         // @props C07 C06
@@ -209,10 +219,13 @@ pub(crate) mod proofs {
                 assert!(wakes(id as usize) == w0 + 1,                        "cancel: a parked stream is woken");
                 assert!(!KEEP_AT_LAST_WAKE[id as usize].load(Relaxed),       "cancel: flag first, wake second (the woken stream already sees the end signal)");
             }
-            let j: usize = kani::any(); kani::assume(j < M && j != id as usize);
-            assert!(keep_of(&m)[j] == s.keep[j],                             "cancel: streams not targeted keep their flag");
-            assert!(arr_eq(&used_of(&m), &s.used_list()) && m.running_streams_count() == s.live_count(), "cancel: the live set is unchanged until the stream is dropped");
-            assert!(locks_free(&m),                                          "cancel: no lock left held");
+            let j: usize = kani::any();
+            if j < M && j != id as usize {
+                assert!(keep_of(&m)[j] == s.keep[j],                             "cancel: streams not targeted keep their flag");
+                assert!(arr_eq(&used_of(&m), &s.used_list()) && m.running_streams_count() == s.live_count(), "cancel: the live set is unchanged until the stream is dropped");
+                assert!(locks_free(&m),                                          "cancel: no lock left held");
+            }
+            kani::cover!(true, "end of harness reachable (vacuity guard)");
         }
 
         // @props C07 C06
@@ -232,6 +245,7 @@ pub(crate) mod proofs {
             let mut parked_live = 0; let mut i = 0; while i < M { if s.live[i] && s.parked[i] { parked_live += 1; } i += 1; }
             assert!(total_wakes(M) == before + parked_live,                  "cancel_all: every parked live stream is woken exactly once");
             assert!(locks_free(&m),                                          "cancel_all: no lock left held");
+            kani::cover!(true, "end of harness reachable (vacuity guard)");
         }
 
         // @props C04 C07
@@ -247,6 +261,7 @@ pub(crate) mod proofs {
             }
             assert!(total_wakes(M) - all0 == wakes(id as usize) - w0,        "wake: no other stream's waker is invoked");
             assert!(locks_free(&m),                                          "wake: no lock left held");
+            kani::cover!(true, "end of harness reachable (vacuity guard)");
         }
 
         // @props C04 C07
@@ -264,9 +279,12 @@ pub(crate) mod proofs {
             if !(s.parked[id as usize] && same) {
                 assert!(wakes(slot) >= w0 + 1,                               "register: when a waker is newly stored / replaced, the task is self-woken at least once (closes the missed-wake window)");
             }
-            let j: usize = kani::any(); kani::assume(j < M && j != id as usize);
-            assert!(has_waker(&m, j) == (s.live[j] && s.parked[j]),          "register: other streams' wakers untouched");
-            assert!(locks_free(&m),                                          "register: no lock left held");
+            let j: usize = kani::any();
+            if j < M && j != id as usize {
+                assert!(has_waker(&m, j) == (s.live[j] && s.parked[j]),          "register: other streams' wakers untouched");
+                assert!(locks_free(&m),                                          "register: no lock left held");
+            }
+            kani::cover!(true, "end of harness reachable (vacuity guard)");
         }
 
         // @props C06 C10 C07
@@ -280,6 +298,7 @@ pub(crate) mod proofs {
             let id: u32 = kani::any(); kani::assume(id < M as u32);
             assert!(m.keep_stream_running(id) == s.keep[id as usize],        "keep_stream_running(id) == keep[id]");
             assert!(arr_eq(m.used_streams(), &s.used_list()),                      "used_streams() == ascending(live), padded");
+            kani::cover!(true, "end of harness reachable (vacuity guard)");
         }
     } )* } }
     sm_proofs! {
